@@ -8,6 +8,7 @@ use crate::{
     next::NextChunk,
     AtomicCounter, ConcurrentIter, Next,
 };
+use super::vec::TakenSlice;
 use std::{
     cell::UnsafeCell,
     cmp::Ordering,
@@ -60,8 +61,7 @@ impl<const N: usize, T: Send + Sync> ConIterOfArray<N, T> {
         let len = end_idx - begin_idx;
 
         let ptr = array.as_mut_ptr().add(begin_idx);
-        let vec = Vec::from_raw_parts(ptr, len, 0);
-        vec.into_iter()
+        TakenSlice::new(ptr, len)
     }
 
     unsafe fn split_off_right(&self, left_len: usize) -> Vec<T> {
@@ -70,10 +70,9 @@ impl<const N: usize, T: Send + Sync> ConIterOfArray<N, T> {
         let man_array = &mut *self.array.get();
         let mut array = ManuallyDrop::take(man_array);
 
-        let mut vec = Vec::from_raw_parts(array.as_mut_ptr(), N, 0);
-        let right_vec = vec.split_off(left_len);
-        // elements on the left have already been yielded; they must not be dropped again
-        vec.set_len(0);
+        // elements on the left have already been yielded; only the right part is moved out
+        let right_ptr = array.as_mut_ptr().add(left_len);
+        let right_vec: Vec<T> = TakenSlice::new(right_ptr, N - left_len).collect();
 
         *man_array = ManuallyDrop::new(array);
         right_vec
